@@ -34,15 +34,20 @@ func c07Frame(c *sim.Ctx) (frame []byte, fm []ref.Field, valid bool) {
 	t := c.T
 	cfg := specCfg(c)
 	a := gen.Packet(t, cfg) // incl. rare multi-megabyte PUBLISH frames
-	if t.Bool(1, 500) || c.Run == c07ShortRuns {
+	// one frame of 16..18 MiB per batch (thorough: one in 20000 runs)
+	giant := c.Run%20000 == c07ShortRuns+2
+	if t.Bool(1, 500) || c.Run == c07ShortRuns || giant {
 		// a multi-megabyte PUBLISH (4-byte remaining length), on purpose
 		n := 2097152 + t.Int(1<<20)
 		if t.Bool(1, 2) {
 			n = 4<<20 + t.Int(1<<20)
 		}
+		if giant {
+			n = 16<<20 + t.Int(2<<20) // 16..18 MiB
+		}
 		g := gen.NewG(t, c.Thorough, 0)
 		a = &ref.AP{Type: ref.Publish, Flags: byte(t.Int(3)) << 1, Topic: []byte("big/one"), PacketID: 9, Payload: g.Bin(n)}
-		if t.Bool(1, 3) {
+		if !giant && t.Bool(1, 3) {
 			// the reserved type 0 with a body of 256 KiB .. 3 MiB (decoded as Undefined)
 			a = &ref.AP{Type: ref.Reserved0, Flags: byte(t.Int(16)), Raw: g.Bin(262144 + 1 + t.Int(3<<20))}
 		}
@@ -328,10 +333,48 @@ func c07LongIdle(c *sim.Ctx) *sim.Violation {
 	return nil
 }
 
+// c07Clock hands one run of the batch to the instrumented build (run.sh puts
+// its path into VERIF_INSTR_BIN): see c07_clock_instr.go.
+func c07Clock(c *sim.Ctx) *sim.Violation {
+	bin := os.Getenv("VERIF_INSTR_BIN")
+	if bin == "" {
+		c.Count("skipped.clock-phase(no-instrumented-binary-given)")
+		return nil
+	}
+	n := 3000
+	if c.Thorough {
+		n = 300000
+	}
+	cmd := exec.Command(bin, "c07-clock", "-seed", fmt.Sprint(sim.SubSeed(c.Seed, c.Run)>>1))
+	cmd.Env = append(os.Environ(), fmt.Sprintf("VERIF_C07_CLOCK_N=%d", n))
+	out, err := cmd.CombinedOutput()
+	msg := string(out)
+	if len(msg) > 3000 {
+		msg = msg[:3000]
+	}
+	if ee, ok := err.(*exec.ExitError); ok && ee.ExitCode() == 1 {
+		return sim.V("C07/clock/result-depends-on-the-time-the-link-takes", "instrumented build, simulated clock moved between Read calls:\n%s", msg)
+	}
+	if err != nil {
+		panic(fmt.Sprintf("C07 clock phase: the instrumented child failed: %v\n%s", err, msg))
+	}
+	var cases, moves int64
+	fmt.Sscanf(msg, "ok cases=%d clock-moves=%d", &cases, &moves)
+	if cases != int64(n) {
+		panic(fmt.Sprintf("C07 clock phase: unexpected child output %q", msg))
+	}
+	c.CountN("probe.clock-phase.frames-delivered-while-the-simulated-clock-moves(instrumented child)", cases)
+	c.CountN("fault.clock-moved-before-a-Read(instrumented child)", moves)
+	return nil
+}
+
 func runC07(c *sim.Ctx) *sim.Violation {
 	t := c.T
 	if c.Run == c07ShortRuns+1 {
 		return c07LongIdle(c)
+	}
+	if c.Run == c07ShortRuns+3 {
+		return c07Clock(c)
 	}
 	if c.Run < c07ShortRuns || (c.Thorough && c.Run < 20*c07ShortRuns) {
 		return c07Exhaustive(c)
@@ -597,6 +640,7 @@ var C07 = &sim.Scenario{
 	Rule: "one case = one frame (stub-encoded valid frame in a tape-chosen style, 1 in 4 with a damaged body) compared between contiguous delivery and " +
 		"re-delivery under schedules legal for io.Reader: tape-drawn segmentations with zero-length reads, scratch scribbling and three stream endings; " +
 		"byte-at-a-time; a single split at every offset (all offsets for frames <= 512 bytes); plus, in the first 48 runs, ALL 2^(L-1) compositions x 3 endings of a frame of L <= 12 bytes. " +
+		"One run per batch is the CLOCK PHASE: 3000 (thorough 300000) frames delivered by the instrumented build (child process), whose only clock is the simulated one, moved by a tape-drawn amount before every Read (nothing, microseconds .. an hour log-uniformly, round amounts with up to 250 ms on top, days, steps backwards); the result must equal contiguous delivery at a standing clock. " +
 		"distinct_nontrivial counts distinct (frame bytes, event-log hash) pairs; every counted case executed at least one non-contiguous schedule.",
 	Assumptions: []string{
 		"the stub encoder (verif/ref) emits valid MQTT v5.0 frames (cross-checked by ref's own encode/decode identity test and by C02/C03)",
@@ -615,6 +659,7 @@ var C07 = &sim.Scenario{
 		return map[string]interface{}{
 			"exhaustive_subspace": "all compositions x 3 endings of 48 (quick) / 960 (thorough) frames of <= 12 (quick) / <= 16 (thorough) bytes, a third of them with a non-minimal multi-byte remaining length (14 packet types; CONNECT's minimum is 15 bytes and is covered by the seeded and single-split sweeps)",
 			"schedules_executed":  counts["schedules"],
+			"clock":               "plain build: the library reads no clock (cmd/instr reports 0 clock uses on the unchanged tree). Clock phase: SIMULATED - the instrumented build routes time.Now/Since/Until to mq.VerifNow = the run's clock, which moves only by tape-drawn amounts before each Read",
 		}
 	},
 }
